@@ -1,10 +1,11 @@
 """seedsave.py <Cxx> ... : copy confirmed seeded changes /tmp/seed/out-<Cxx>/<i> into /verif/seeded/<Cxx>-<i>/ and record what was run."""
 import json, os, re, shutil, sys
+ROUND = os.environ.get("SEED_ROUND", "")          # "" -> /tmp/seed/out-<Cxx>/<i> -> seeded/<Cxx>-<i>;  "2" -> out2-<Cxx>/<i> -> seeded/<Cxx>-r2-<i>
 for prop in sys.argv[1:]:
-    base = "/tmp/seed/out-%s" % prop
+    base = "/tmp/seed/out%s-%s" % (ROUND, prop)
     for i in sorted(os.listdir(base)):
         src = os.path.join(base, i)
-        res = "/tmp/seed/results/out-%s_%s.txt" % (prop, i)
+        res = "/tmp/seed/results/out%s-%s_%s.txt" % (ROUND, prop, i)
         if not os.path.isfile(os.path.join(src, "patch.diff")) or not os.path.isfile(res):
             continue
         txt = open(res).read()
@@ -16,7 +17,7 @@ for prop in sys.argv[1:]:
         for mm in re.finditer(r"check (C\d+) on changed tree: rc=(\d+) \| (\d+) VIOLATION", txt):
             checks[mm.group(1)] = {"exit": int(mm.group(2)), "violation_lines": int(mm.group(3))}
         replays = re.findall(r"replay: (\w+) (\S+) \| (.*)", txt)
-        dst = "/verif/seeded/%s-%s" % (prop, i)
+        dst = "/verif/seeded/%s-%s%s" % (prop, ("r%s-" % ROUND) if ROUND else "", i)
         os.makedirs(dst, exist_ok=True)
         for fn in ("patch.diff", "demo.py"):
             shutil.copy(os.path.join(src, fn), os.path.join(dst, fn))
